@@ -238,44 +238,126 @@ fn cmd_fmt() {
 // C29 Eb: every operation history up to `len` over keys 0..3 and capacities 0..=4, LruCache vs an abstract LRU model
 fn cmd_lru(len: usize) {
     use oxidize_pdf::memory::LruCache;
+    // every get/put history of length <= len over NK keys, capacities 0..=4, against an abstract LRU list. After each history the
+    // complete recency order is compared too: the history is replayed followed by j fresh puts (j = 1..=cap), and the set of
+    // surviving keys must be the model's (so a wrong order is seen even when the history itself never evicts the wrong key).
+    const NK: u8 = 5;
     #[derive(Clone, Copy)] enum Op { Get(u8), Put(u8) }
-    let ops: Vec<Op> = (0..4u8).flat_map(|k| [Op::Get(k), Op::Put(k)]).collect();
+    let ops: Vec<Op> = (0..NK).flat_map(|k| [Op::Get(k), Op::Put(k)]).collect();
     let mut evaluated = 0u64; let mut bad: Vec<String> = vec![];
     let mut idx = vec![0usize; len];
+    fn model_put(model: &mut Vec<(u8, u32)>, cap: usize, k: u8, v: u32) {
+        if cap > 0 {
+            if let Some(p) = model.iter().position(|e| e.0 == k) { model.remove(p); }
+            else if model.len() >= cap { model.pop(); }
+            model.insert(0, (k, v));
+        }
+    }
     for cap in 0..=4usize {
         for l in 0..=len {
             let total = ops.len().pow(l as u32);
             for n in 0..total {
                 let mut m = n; for i in 0..l { idx[i] = m % ops.len(); m /= ops.len(); }
                 evaluated += 1;
-                let mut real: LruCache<u8, u32> = LruCache::new(cap);
-                let mut model: Vec<(u8, u32)> = vec![]; // front = most recently used
-                let mut stamp = 0u32; let mut ok = true; let mut trace = vec![];
-                for i in 0..l {
-                    match ops[idx[i]] {
-                        Op::Put(k) => {
-                            stamp += 1; real.put(k, stamp); trace.push(format!("put {k}"));
-                            if cap > 0 {
-                                if let Some(p) = model.iter().position(|e| e.0 == k) { model.remove(p); }
-                                else if model.len() >= cap { model.pop(); }
-                                model.insert(0, (k, stamp));
+                let mut ok = true; let mut trace = vec![];
+                // drain = 0: the history itself; drain = j: history + j fresh keys, then presence of every key
+                for drain in 0..=cap {
+                    let mut real: LruCache<u8, u32> = LruCache::new(cap);
+                    let mut model: Vec<(u8, u32)> = vec![]; // front = most recently used
+                    let mut stamp = 0u32; trace.clear();
+                    for i in 0..l {
+                        match ops[idx[i]] {
+                            Op::Put(k) => { stamp += 1; real.put(k, stamp); trace.push(format!("put {k}")); model_put(&mut model, cap, k, stamp); }
+                            Op::Get(k) => {
+                                trace.push(format!("get {k}"));
+                                let r = real.get(&k).copied();
+                                let e = model.iter().position(|e| e.0 == k).map(|p| { let x = model.remove(p); model.insert(0, x); x.1 });
+                                if r != e { ok = false; }
                             }
                         }
-                        Op::Get(k) => {
-                            trace.push(format!("get {k}"));
-                            let r = real.get(&k).copied();
-                            let e = model.iter().position(|e| e.0 == k).map(|p| { let x = model.remove(p); model.insert(0, x); x.1 });
-                            if r != e { ok = false; }
-                        }
+                        if real.len() != model.len() || real.len() > cap { ok = false; }
+                        if !ok { break; }
                     }
-                    if real.len() != model.len() || real.len() > cap { ok = false; }
+                    if !ok { break; }
+                    {
+                        for j in 0..drain { let k = 100 + j as u8; stamp += 1; real.put(k, stamp); trace.push(format!("put {k}")); model_put(&mut model, cap, k, stamp); }
+                        for k in (0..NK).chain(100..100 + drain as u8) {
+                            let r = real.get(&k).copied();
+                            let e = model.iter().find(|e| e.0 == k).map(|x| x.1);
+                            if r != e { ok = false; trace.push(format!("get {k} -> {:?}, model {:?}", r, e)); break; }
+                        }
+                        if real.len() != model.len() { ok = false; }
+                    }
                     if !ok { break; }
                 }
                 if !ok && bad.len() < 5 { bad.push(format!("{{\"capacity\":{cap},\"history\":{:?}}}", trace)); }
             }
         }
     }
-    println!("{{\"cmd\":\"lru\",\"bound\":\"all histories of length <= {len} over get/put on keys 0..4, capacities 0..=4\",\"evaluated\":{},\"disagreements\":[{}]}}", evaluated, bad.join(","));
+    println!("{{\"cmd\":\"lru\",\"bound\":\"all histories of length <= {len} over get/put on keys 0..{NK}, capacities 0..=4, each followed by a drain of 0..=capacity fresh keys (recency order check)\",\"evaluated\":{},\"disagreements\":[{}]}}", evaluated, bad.join(","));
+}
+
+// C29 Eb: the lock-guarded ObjectCache against the same abstract LRU list. Values come from a 2-element set so that histories
+// re-store an equal value for a cached key; after each history the recency order is exposed by a drain of fresh keys.
+fn cmd_objcache(len: usize) {
+    use oxidize_pdf::memory::ObjectCache;
+    use oxidize_pdf::objects::ObjectId;
+    use std::sync::Arc;
+    const NK: u32 = 3;
+    #[derive(Clone, Copy)] enum Op { Get(u32), Put(u32, i64) }
+    let mut ops: Vec<Op> = vec![];
+    for k in 0..NK { ops.push(Op::Get(k)); ops.push(Op::Put(k, 0)); ops.push(Op::Put(k, 1)); }
+    let mut evaluated = 0u64; let mut bad: Vec<String> = vec![];
+    let mut idx = vec![0usize; len];
+    fn model_put(model: &mut Vec<(u32, i64)>, cap: usize, k: u32, v: i64) {
+        if cap > 0 {
+            if let Some(p) = model.iter().position(|e| e.0 == k) { model.remove(p); }
+            else if model.len() >= cap { model.pop(); }
+            model.insert(0, (k, v));
+        }
+    }
+    let val = |c: &ObjectCache, k: u32| -> Option<i64> { c.get(&ObjectId::new(k, 0)).map(|o| match &*o { PdfObject::Integer(i) => *i, _ => -1 }) };
+    for cap in 0..=3usize {
+        for l in 0..=len {
+            let total = ops.len().pow(l as u32);
+            for n in 0..total {
+                let mut m = n; for i in 0..l { idx[i] = m % ops.len(); m /= ops.len(); }
+                evaluated += 1;
+                let mut ok = true; let mut trace = vec![];
+                for drain in 0..=cap {
+                    let real = ObjectCache::new(cap);
+                    let mut model: Vec<(u32, i64)> = vec![];
+                    trace.clear();
+                    for i in 0..l {
+                        match ops[idx[i]] {
+                            Op::Put(k, v) => { real.put(ObjectId::new(k, 0), Arc::new(PdfObject::Integer(v))); trace.push(format!("put {k}={v}")); model_put(&mut model, cap, k, v); }
+                            Op::Get(k) => {
+                                trace.push(format!("get {k}"));
+                                let r = val(&real, k);
+                                let e = model.iter().position(|e| e.0 == k).map(|p| { let x = model.remove(p); model.insert(0, x); x.1 });
+                                if r != e { ok = false; }
+                            }
+                        }
+                        let st = real.stats();
+                        if st.size != model.len() || st.size > cap { ok = false; }
+                        if !ok { break; }
+                    }
+                    if !ok { break; }
+                    {
+                        for j in 0..drain { let k = 100 + j as u32; real.put(ObjectId::new(k, 0), Arc::new(PdfObject::Integer(7))); trace.push(format!("put {k}=7")); model_put(&mut model, cap, k, 7); }
+                        for k in (0..NK).chain(100..100 + drain as u32) {
+                            let r = val(&real, k);
+                            let e = model.iter().find(|e| e.0 == k).map(|x| x.1);
+                            if r != e { ok = false; trace.push(format!("get {k} -> {:?}, model {:?}", r, e)); break; }
+                        }
+                    }
+                    if !ok { break; }
+                }
+                if !ok && bad.len() < 5 { bad.push(format!("{{\"capacity\":{cap},\"history\":{:?}}}", trace)); }
+            }
+        }
+    }
+    println!("{{\"cmd\":\"objcache\",\"bound\":\"all histories of length <= {len} over get/put on 3 ids with values from {{0,1}}, capacities 0..=3, each followed by a drain of 0..=capacity fresh ids\",\"evaluated\":{},\"disagreements\":[{}]}}", evaluated, bad.join(","));
 }
 
 // C21 Eb: API -> content stream -> real parser. (1) show-text operands over a small alphabet incl. backslash, parens,
@@ -409,6 +491,210 @@ fn cmd_opnames() {
     println!("{{\"cmd\":\"opnames\",\"bound\":\"8 names incl. space, '/', '(', '#', '%', non-ASCII through GraphicsContext::draw_image\",\"evaluated\":{},\"disagreements\":{},\"irregular_wrong\":{},\"examples\":[{}]}}", names.len(), plain_wrong, wrong, ex.join(","));
 }
 
+// C09 Eb: object values through the REAL writer and the REAL reader. Every string / name of <= len symbols over a small
+// alphabet (delimiters, backslash, CR/LF, control bytes, digits after control bytes, '#') is stored as a property of an annotation
+// (which reaches write_object_value / write_object_value_to_buffer), the document is written with the legacy and the modern
+// (object streams) configuration, re-opened with PdfReader, and the value read back must be the value stored.
+fn cmd_objects(len: usize) {
+    use oxidize_pdf::annotations::{Annotation, AnnotationType};
+    use oxidize_pdf::geometry::{Point, Rectangle};
+    use oxidize_pdf::objects::Object;
+    use oxidize_pdf::writer::WriterConfig;
+    use oxidize_pdf::parser::PdfReader;
+    let salpha: Vec<char> = vec!['A', '7', '\\', '(', ')', '\r', '\n', '\u{1}', '\u{7f}', ' '];
+    let nalpha: Vec<char> = vec!['A', '4', ' ', '/', '(', '#', '%', '[', '\u{1}'];
+    fn words(alpha: &[char], len: usize) -> Vec<String> {
+        let mut out = vec![String::new()]; let mut cur = vec![String::new()];
+        for _ in 0..len { let mut nxt = vec![]; for w in &cur { for c in alpha { let mut x = w.clone(); x.push(*c); nxt.push(x); } } out.extend(nxt.iter().cloned()); cur = nxt; }
+        out
+    }
+    let strings = words(&salpha, len);
+    let names: Vec<String> = words(&nalpha, len).into_iter().filter(|n| !n.is_empty()).collect();
+    let mut values: Vec<Object> = strings.iter().map(|s| Object::String(s.clone())).collect();
+    values.extend(names.iter().map(|n| Object::Name(n.clone())));
+    // names as dictionary keys too
+    let keyed: Vec<Object> = names.iter().map(|n| { let mut d = oxidize_pdf::objects::Dictionary::new(); d.set(n.as_str(), Object::Integer(1)); Object::Dictionary(d) }).collect();
+    values.extend(keyed);
+    let run = |vals: &[(usize, &Object)], modern: bool| -> Result<Vec<(usize, String)>, String> {
+        let mut doc = oxidize_pdf::Document::new();
+        let mut page = oxidize_pdf::Page::a4();
+        let mut annot = Annotation::new(AnnotationType::Text, Rectangle::new(Point::new(10.0, 10.0), Point::new(50.0, 50.0)));
+        for (i, v) in vals { annot.properties.set(format!("V{i}"), (*v).clone()); }
+        page.add_annotation(annot);
+        doc.add_page(page);
+        let bytes = doc.to_bytes_with_config(if modern { WriterConfig::modern() } else { WriterConfig::legacy() }).map_err(|e| e.to_string())?;
+        let mut reader = PdfReader::new(std::io::Cursor::new(&bytes[..])).map_err(|e| format!("reader: {e}"))?;
+        let pages = reader.pages().map_err(|e| format!("pages: {e}"))?.clone();
+        let kids = pages.get("Kids").and_then(|o| o.as_array()).ok_or("kids")?.clone();
+        let (pn, pg) = kids.0[0].as_reference().ok_or("page ref")?;
+        let page = reader.get_object(pn, pg).map_err(|e| format!("page: {e}"))?.clone();
+        let annots = page.as_dict().and_then(|d| d.get("Annots")).cloned().ok_or("annots")?;
+        let annots = match annots.as_reference() { Some((n, g)) => reader.get_object(n, g).map_err(|e| e.to_string())?.clone(), None => annots };
+        let a0 = annots.as_array().ok_or("annots array")?.0[0].clone();
+        let a0 = match a0.as_reference() { Some((n, g)) => reader.get_object(n, g).map_err(|e| e.to_string())?.clone(), None => a0 };
+        let d = a0.as_dict().ok_or("annot dict")?;
+        let mut bad = vec![];
+        for (i, v) in vals {
+            let got = d.get(&format!("V{i}"));
+            let ok = match (v, got) {
+                (Object::String(s), Some(PdfObject::String(g))) => g.as_bytes() == s.as_bytes(),
+                (Object::Name(n), Some(PdfObject::Name(g))) => g.as_str() == n.as_str(),
+                (Object::Dictionary(dd), Some(PdfObject::Dictionary(g))) => g.0.len() == 1 && dd.entries().all(|(k, _)| g.0.keys().any(|gk| gk.as_str() == k.as_str())),
+                _ => false,
+            };
+            if !ok { bad.push((*i, format!("{:?}", got))); }
+        }
+        Ok(bad)
+    };
+    let mut evaluated = 0u64; let mut bad: Vec<String> = vec![]; let mut nbad = 0usize;
+    for modern in [false, true] {
+        let all: Vec<(usize, &Object)> = values.iter().enumerate().collect();
+        evaluated += all.len() as u64;
+        // a failing batch is bisected so that one broken token does not hide the others (at most 3 witnesses per configuration)
+        let mut work: Vec<Vec<(usize, &Object)>> = vec![all];
+        let mut found = 0;
+        while let Some(part) = work.pop() {
+            if found >= 3 { break; }
+            let r = panic::catch_unwind(|| run(&part, modern));
+            let fine = matches!(&r, Ok(Ok(b)) if b.is_empty());
+            if fine { continue; }
+            if part.len() == 1 {
+                let desc = match r { Ok(Ok(b)) => b[0].1.clone(), Ok(Err(e)) => format!("error: {e}"), Err(_) => "PANIC".to_string() };
+                bad.push(format!("{{\"config\":\"{}\",\"value\":{},\"read_back\":{}}}", if modern { "modern" } else { "legacy" }, js(&format!("{:?}", part[0].1)), js(&desc)));
+                found += 1; nbad += 1; continue;
+            }
+            if let Ok(Ok(b)) = &r { if found == 0 && work.is_empty() { nbad += b.len().saturating_sub(1); } }
+            let mid = part.len() / 2;
+            work.push(part[mid..].to_vec()); work.push(part[..mid].to_vec());
+        }
+    }
+    let n = nbad.max(bad.len());
+    println!("{{\"cmd\":\"objects\",\"bound\":\"strings and names (as values and as dictionary keys) of <= {len} symbols over 10- and 9-symbol alphabets, legacy and object-stream writer configurations\",\"evaluated\":{},\"disagreement_count\":{},\"disagreements\":[{}]}}", evaluated, n, bad.join(","));
+}
+
+// C04 Eb: revision chains. Objects 5 and 6 are defined in a base revision and then, in up to `max_upd` incremental updates,
+// each is left alone, redefined as a plain object, redefined inside a NEW object stream, or freed; each revision ends in a
+// classic table or a cross-reference stream. Every file is opened with the default/strict/lenient presets and the two objects
+// are resolved in both orders (and each twice): the result must be the newest definition (null when freed).
+mod revs {
+    #[derive(Clone, Copy, PartialEq, Debug)]
+    pub enum Row { Free { gen: u16 }, InUse { offset: usize }, Compressed { stream: u32, index: u32 } }
+    pub struct Pdf { pub buf: Vec<u8>, pub last_xref: Option<usize> }
+    impl Pdf {
+        pub fn new() -> Self { Pdf { buf: b"%PDF-1.7\n".to_vec(), last_xref: None } }
+        fn push(&mut self, s: &str) { self.buf.extend_from_slice(s.as_bytes()); }
+        pub fn obj(&mut self, num: u32, body: &str) -> usize { let off = self.buf.len(); self.push(&format!("{num} 0 obj\n{body}\nendobj\n")); off }
+        pub fn stream(&mut self, num: u32, dict_extra: &str, data: &[u8]) -> usize {
+            let off = self.buf.len();
+            self.push(&format!("{num} 0 obj\n<<{dict_extra}/Length {}>>\nstream\n", data.len()));
+            self.buf.extend_from_slice(data); self.push("\nendstream\nendobj\n"); off
+        }
+        pub fn objstm(&mut self, num: u32, members: &[(u32, String)]) -> usize {
+            let mut header = String::new(); let mut bodies = String::new();
+            for (n, body) in members { header.push_str(&format!("{} {} ", n, bodies.len())); bodies.push_str(body); bodies.push(' '); }
+            let first = header.len(); let data = format!("{header}{bodies}");
+            self.stream(num, &format!("/Type/ObjStm/N {}/First {first}", members.len()), data.as_bytes())
+        }
+        fn runs(rows: &[(u32, Row)]) -> Vec<(usize, usize)> {
+            let mut out = vec![]; let mut i = 0;
+            while i < rows.len() { let mut j = i; while j + 1 < rows.len() && rows[j + 1].0 == rows[j].0 + 1 { j += 1; } out.push((i, j)); i = j + 1; }
+            out
+        }
+        pub fn finish_classic(&mut self, rows: &[(u32, Row)], size: u32) {
+            let mut rows = rows.to_vec(); rows.sort_by_key(|(n, _)| *n);
+            let xref_off = self.buf.len(); self.push("xref\n");
+            for (i, j) in Self::runs(&rows) {
+                self.push(&format!("{} {}\n", rows[i].0, j - i + 1));
+                for (n, row) in &rows[i..=j] { match *row {
+                    Row::Free { gen } => self.push(&format!("{:010} {:05} f \n", 0, if *n == 0 { 65535 } else { gen })),
+                    Row::InUse { offset } => self.push(&format!("{offset:010} 00000 n \n")),
+                    Row::Compressed { .. } => unreachable!(),
+                } }
+            }
+            let prev = self.last_xref.map(|p| format!("/Prev {p}")).unwrap_or_default();
+            self.push(&format!("trailer\n<</Size {size}/Root 1 0 R{prev}>>\nstartxref\n{xref_off}\n%%EOF\n"));
+            self.last_xref = Some(xref_off);
+        }
+        pub fn finish_stream(&mut self, xref_num: u32, rows: &[(u32, Row)], size: u32) {
+            let xref_off = self.buf.len();
+            let mut rows = rows.to_vec(); rows.push((xref_num, Row::InUse { offset: xref_off })); rows.sort_by_key(|(n, _)| *n);
+            let mut index = String::new(); let mut data: Vec<u8> = Vec::new();
+            for (i, j) in Self::runs(&rows) {
+                index.push_str(&format!("{} {} ", rows[i].0, j - i + 1));
+                for (n, row) in &rows[i..=j] {
+                    let (t, a, b): (u8, u32, u16) = match *row { Row::Free { gen } => (0, 0, if *n == 0 { 65535 } else { gen }), Row::InUse { offset } => (1, offset as u32, 0), Row::Compressed { stream, index } => (2, stream, index as u16) };
+                    data.push(t); data.extend_from_slice(&a.to_be_bytes()); data.extend_from_slice(&b.to_be_bytes());
+                }
+            }
+            let prev = self.last_xref.map(|p| format!("/Prev {p}")).unwrap_or_default();
+            self.stream(xref_num, &format!("/Type/XRef/Size {size}/W[1 4 2]/Index[{index}]/Root 1 0 R{prev}"), &data);
+            self.push(&format!("startxref\n{xref_off}\n%%EOF\n"));
+            self.last_xref = Some(xref_off);
+        }
+    }
+}
+fn cmd_revisions(max_upd: usize) {
+    use revs::*;
+    use oxidize_pdf::parser::PdfReader;
+    #[derive(Clone, Copy, PartialEq, Debug)] enum St { Keep, Plain, Comp, Free }
+    let upd_states = [St::Keep, St::Plain, St::Comp, St::Free];
+    // one revision = (state of 5, state of 6, use an xref stream?)
+    let mut base_revs: Vec<(St, St, bool)> = vec![];
+    for a in [St::Plain, St::Comp] { for b in [St::Plain, St::Comp] { for xs in [false, true] { if (a == St::Comp || b == St::Comp) && !xs { continue; } base_revs.push((a, b, xs)); } } }
+    let mut upd_revs: Vec<(St, St, bool)> = vec![];
+    for a in upd_states { for b in upd_states { if a == St::Keep && b == St::Keep { continue; } for xs in [false, true] { if (a == St::Comp || b == St::Comp) && !xs { continue; } upd_revs.push((a, b, xs)); } } }
+    let mut histories: Vec<Vec<(St, St, bool)>> = base_revs.iter().map(|b| vec![*b]).collect();
+    let mut frontier = histories.clone();
+    for _ in 0..max_upd { let mut nxt = vec![]; for h in &frontier { for u in &upd_revs { let mut x = h.clone(); x.push(*u); nxt.push(x); } } histories.extend(nxt.iter().cloned()); frontier = nxt; }
+    let mut evaluated = 0u64; let mut bad: Vec<String> = vec![]; let mut nbad = 0u64;
+    for h in &histories {
+        // build the file and the model
+        let mut p = Pdf::new(); let mut next_num = 7u32; let mut expect: [Option<i64>; 2] = [None, None];
+        for (ri, (sa, sb, xs)) in h.iter().enumerate() {
+            let mut rows: Vec<(u32, Row)> = vec![];
+            if ri == 0 {
+                rows.push((0, Row::Free { gen: 65535 }));
+                let o1 = p.obj(1, "<</Type/Catalog/Pages 2 0 R>>"); let o2 = p.obj(2, "<</Type/Pages/Count 1/Kids[3 0 R]>>");
+                let o3 = p.obj(3, "<</Type/Page/Parent 2 0 R/MediaBox[0 0 612 792]>>"); let o4 = p.obj(4, "(filler)");
+                rows.extend([(1, Row::InUse { offset: o1 }), (2, Row::InUse { offset: o2 }), (3, Row::InUse { offset: o3 }), (4, Row::InUse { offset: o4 })]);
+            }
+            let mut members: Vec<(u32, String)> = vec![];
+            for (k, st) in [(0usize, *sa), (1usize, *sb)] {
+                let num = 5 + k as u32; let val = (num as i64) * 100 + ri as i64;
+                match st {
+                    St::Keep => {}
+                    St::Plain => { let o = p.obj(num, &val.to_string()); rows.push((num, Row::InUse { offset: o })); expect[k] = Some(val); }
+                    St::Comp => { members.push((num, val.to_string())); expect[k] = Some(val); }
+                    St::Free => { rows.push((num, Row::Free { gen: 1 })); expect[k] = None; }
+                }
+            }
+            if !members.is_empty() {
+                let sn = next_num; next_num += 1;
+                let o = p.objstm(sn, &members);
+                rows.push((sn, Row::InUse { offset: o }));
+                for (i, (n, _)) in members.iter().enumerate() { rows.push((*n, Row::Compressed { stream: sn, index: i as u32 })); }
+            }
+            if *xs { let xn = next_num; next_num += 1; p.finish_stream(xn, &rows, next_num); } else { p.finish_classic(&rows, next_num); }
+        }
+        for (pname, opt) in [("default", ParseOptions::default()), ("strict", ParseOptions::strict()), ("lenient", ParseOptions::lenient())] {
+            for order in [[5u32, 6, 5, 6], [6u32, 5, 6, 5]] {
+                evaluated += 1;
+                let buf = p.buf.clone(); let opt = opt.clone();
+                let r = panic::catch_unwind(move || -> Result<Vec<String>, String> {
+                    let mut rd = PdfReader::new_with_options(std::io::Cursor::new(buf), opt).map_err(|e| format!("open: {e}"))?;
+                    let mut got = vec![];
+                    for n in order { got.push(match rd.get_object(n, 0) { Ok(PdfObject::Integer(i)) => format!("{i}"), Ok(PdfObject::Null) => "null".to_string(), Ok(o) => format!("{:?}", o), Err(e) => format!("Err({e})") }); }
+                    Ok(got)
+                });
+                let want: Vec<String> = order.iter().map(|n| match expect[(*n - 5) as usize] { Some(v) => v.to_string(), None => "null".to_string() }).collect();
+                let ok = matches!(&r, Ok(Ok(g)) if *g == want);
+                if !ok { nbad += 1; if bad.len() < 5 { bad.push(format!("{{\"history\":{},\"preset\":\"{pname}\",\"read_order\":{:?},\"expected\":{:?},\"got\":{}}}", js(&format!("{:?}", h)), order, want, js(&format!("{:?}", r.map_err(|_| "PANIC"))))); } }
+            }
+        }
+    }
+    println!("{{\"cmd\":\"revisions\",\"bound\":\"base revision + up to {max_upd} incremental updates over two objects x {{keep, plain, in a new object stream, freed}} x {{classic table, xref stream}}; presets default/strict/lenient; both read orders\",\"evaluated\":{},\"disagreement_count\":{},\"disagreements\":[{}]}}", evaluated, nbad, bad.join(","));
+}
+
 fn main() {
     let args: Vec<String> = std::env::args().collect();
     panic::set_hook(Box::new(|_| {}));
@@ -419,6 +705,8 @@ fn main() {
         Some("a85hex-roundtrip") => cmd_a85hex_roundtrip(args.get(2).and_then(|s| s.parse().ok()).unwrap_or(4)),
         Some("fmt") => cmd_fmt(),
         Some("opnames") => cmd_opnames(),
+        Some("revisions") => cmd_revisions(args.get(2).and_then(|s| s.parse().ok()).unwrap_or(2)),
+        Some("objects") => cmd_objects(args.get(2).and_then(|s| s.parse().ok()).unwrap_or(2)),
         Some("png-grid") => cmd_png_grid(),
         Some("png") => {
             // png <hex of a PNG file>: Image::from_png_data on it
@@ -466,6 +754,7 @@ fn main() {
             println!("{{\"cmd\":\"xrefstm\",\"args\":{:?},\"result\":{}}}", v, js(&format!("{:?}", r.map_err(|_| "PANIC"))));
         }
         Some("labels") => cmd_labels(args.get(2).and_then(|s| s.parse().ok()).unwrap_or(5000)),
+        Some("objcache") => cmd_objcache(args.get(2).and_then(|s| s.parse().ok()).unwrap_or(4)),
         Some("lru") => cmd_lru(args.get(2).and_then(|s| s.parse().ok()).unwrap_or(6)),
         Some("decode") => {
             // decode <FilterName> <hex bytes> [max]: run the real decoder on one input
